@@ -311,7 +311,7 @@ def ppmd_replay_calls(path):
     import pyppmd
 
     d = None
-    n = 0
+    sessions = []          # per decoder: (order, mem, input fed, output got)
     with open(path, "rb") as f:
         while True:
             try:
@@ -321,12 +321,87 @@ def ppmd_replay_calls(path):
             if x[0] == "init":
                 order, mem = struct.unpack("<BL", x[1][:5])
                 d = pyppmd.Ppmd7Decoder(order, mem)
+                sessions.append([order, mem, bytearray(), bytearray()])
             else:
                 _, data, ml = x
                 try:
-                    r = d.decode(b"\0", ml) if (len(data) == 0 and d.needs_input) else d.decode(data, ml)
+                    if len(data) == 0 and d.needs_input:
+                        r = d.decode(b"\0", ml)
+                        sessions[-1][2] += b"\0"
+                    else:
+                        r = d.decode(data, ml)
+                        sessions[-1][2] += data
                 except Exception as ex:  # noqa
                     return f"pyppmd alone, given the calls py7zr made, raises {ex!r}"
-                n += len(r)
+                sessions[-1][3] += r
+    # the same input decoded by a fresh decoder in ONE call: the library's answer must not depend on how the input was cut
+    for order, mem, fed, got in sessions:
+        try:
+            one = pyppmd.Ppmd7Decoder(order, mem).decode(bytes(fed), len(got))
+        except Exception as ex:  # noqa
+            return f"pyppmd alone raises on the whole input at once: {ex!r}"
+        if bytes(one) != bytes(got):
+            return f"pyppmd alone: {len(fed)} bytes decoded in py7zr's pieces differ from the same bytes decoded at once"
     return "ok"
 
+
+
+BCJ_NAMES = ("X86", "ARM", "ARMT", "PPC", "SPARC")
+
+
+def bcj_log_check(case):
+    """Isolate the delegated BCJ library (package 'bcj', used for BCJ filters next to every codec the lzma module does not chain
+    natively): run the case with the pieces py7zr hands to each of its BCJ encoders and decoders logged, then push the same pieces
+    through the library ALONE and compare with the same bytes pushed through it at once.  The wrappers in py7zr.compressor pass the
+    data straight on, so an answer that depends on how the bytes were cut is the library's.  Returns "ok" or a description."""
+    from .common import import_py7zr
+
+    import_py7zr()
+    import bcj
+    import py7zr.compressor as C
+
+    pairs = {"BCJDecoder": bcj.BCJDecoder, "BcjArmDecoder": bcj.ARMDecoder, "BcjArmtDecoder": bcj.ARMTDecoder, "BcjPpcDecoder": bcj.PPCDecoder,
+             "BcjSparcDecoder": bcj.SparcDecoder, "BCJEncoder": bcj.BCJEncoder, "BcjArmEncoder": bcj.ARMEncoder, "BcjArmtEncoder": bcj.ARMTEncoder,
+             "BcjPpcEncoder": bcj.PPCEncoder, "BcjSparcEncoder": bcj.SparcEncoder}
+    logs, saved = [], []
+    for name in pairs:
+        cls = getattr(C, name)
+        is_dec = name.endswith("Decoder")
+        oi = cls.__init__
+        om = cls.decompress if is_dec else cls.compress
+
+        def init(self, *a, _oi=oi, _n=name, **kw):
+            _oi(self, *a, **kw)
+            self._vlog = {"cls": _n, "args": a, "kw": kw, "chunks": []}
+            logs.append(self._vlog)
+
+        def call(self, data, *a, _om=om, **kw):
+            self._vlog["chunks"].append(bytes(data))
+            return _om(self, data, *a, **kw)
+
+        saved.append((cls, is_dec, oi, om))
+        cls.__init__ = init
+        setattr(cls, "decompress" if is_dec else "compress", call)
+    try:
+        run_case(case)
+    finally:
+        for cls, is_dec, oi, om in saved:
+            cls.__init__ = oi
+            setattr(cls, "decompress" if is_dec else "compress", om)
+    for lg in logs:
+        whole = b"".join(lg["chunks"])
+        lens = [len(c) for c in lg["chunks"]]
+        if lg["cls"].endswith("Decoder"):
+            one = pairs[lg["cls"]](*lg["args"], **lg["kw"]).decode(whole)
+            d = pairs[lg["cls"]](*lg["args"], **lg["kw"])
+            pieces = b"".join(d.decode(c) for c in lg["chunks"])
+        else:
+            e = pairs[lg["cls"]]()
+            one = e.encode(whole) + e.flush()
+            e = pairs[lg["cls"]]()
+            pieces = b"".join(e.encode(c) for c in lg["chunks"]) + e.flush()
+        if one != pieces:
+            k = next((i for i in range(min(len(one), len(pieces))) if one[i] != pieces[i]), min(len(one), len(pieces)))
+            return (f"{lg['cls']}: {len(whole)} bytes pushed through the library alone in py7zr's {len(lens)} pieces (shortest {min(lens)}, last "
+                    f"{lens[-3:]}) differ from the same bytes pushed through at once, from offset {k}")
+    return "ok"
